@@ -22,6 +22,7 @@ import (
 //	(b) (treeKeyRule) the full-path key of a stack node is built from its
 //	    parent's full-path key and the node's own label.
 func seenKeyRule(c *core.Ctx, r *core.Report, rule, pkgRel, consequence string) {
+	r.Explain(rule + ": every key used to look up / update the traversal visited set (map keyed by dataflow.KeyType) in " + pkgRel + ".(*Visitor).addNext is computed - backward slice with inlining - from the graph node and from the full-path keys of the call stack (Trace.key) and of the closure stack (ClosureTrace.key); every store to NodeTree.key is built from the label LongID and, when a parent exists, the parent key.")
 	fn := c.Func(pkgRel, "Visitor.addNext")
 	if fn == nil {
 		r.Fail("infra.anchor-unresolved", rule+"|"+pkgRel+".Visitor.addNext", "", "not found")
